@@ -1,5 +1,6 @@
 // modified from crossbeam
 
+use std::any::Any;
 use std::cell::RefCell;
 use std::fmt;
 use std::mem;
@@ -97,9 +98,18 @@ where
     let mut scope = Scope {
         dtors: RefCell::new(None),
     };
-    let ret = f(&scope);
-    scope.drop_all();
-    ret
+    // The dtors wait for the scoped coroutines, and a coroutine must not be suspended
+    // while it unwinds: the panic count behind `thread::panicking()` is a thread local
+    // of the worker, which goes on to run other coroutines and need not be the thread
+    // that resumes this one. So a panic of `f` is caught here and continued after the
+    // wait, as `std::thread::scope` and crossbeam do.
+    let ret = panic::catch_unwind(panic::AssertUnwindSafe(|| f(&scope)));
+    let dtor_panic = scope.drop_all();
+    match (ret, dtor_panic) {
+        (Ok(ret), None) => ret,
+        // the panic of `f` goes first, as it did when the dtors ran inside its unwind
+        (Err(e), _) | (Ok(_), Some(e)) => panic::resume_unwind(e),
+    }
 }
 
 impl fmt::Debug for Scope<'_> {
@@ -115,12 +125,12 @@ impl<T> fmt::Debug for ScopedJoinHandle<T> {
 }
 
 impl<'a> Scope<'a> {
-    // This method is carefully written in a transactional style, so
-    // that it can be called directly and, if any dtor panics, can be
-    // resumed in the unwinding this causes. By initially running the
-    // method outside of any destructor, we avoid any leakage problems
-    // due to @rust-lang/rust#14875.
-    fn drop_all(&mut self) {
+    // Runs every dtor, also when one of them panics (the dtor of a scoped
+    // coroutine re-throws its panic): the first panic is returned, later ones
+    // are dropped, as they were when the remaining dtors ran inside the unwind
+    // of the first.
+    fn drop_all(&mut self) -> Option<Box<dyn Any + Send>> {
+        let mut first = None;
         loop {
             // use a separate scope to ensure that the RefCell borrow
             // is relinquished before running `dtor`
@@ -130,10 +140,12 @@ impl<'a> Scope<'a> {
                     *dtors = node.next.take().map(|b| *b);
                     node.dtor
                 } else {
-                    return;
+                    return first;
                 }
             };
-            dtor();
+            if let Err(e) = panic::catch_unwind(panic::AssertUnwindSafe(dtor)) {
+                first.get_or_insert(e);
+            }
         }
     }
 
@@ -230,7 +242,8 @@ impl<T> ScopedJoinHandle<T> {
 }
 
 impl Drop for Scope<'_> {
+    // `scope` has run the dtors already, this is only a safety net
     fn drop(&mut self) {
-        self.drop_all()
+        self.drop_all();
     }
 }
